@@ -240,7 +240,7 @@ PROPS = {
     },
     "C14": {
         "level": "exploration",
-        "groups": [g("main", "c14", q=4, t=16, run="^Test(GarbageLengths|Exhaustive|Delivery|SenderLimit|Garbage|GarbagePublic|Public|DefaultExpiry)$")],
+        "groups": [g("main", "c14", q=4, t=16, run="^Test(GarbageLengths|Exhaustive|Delivery|SenderLimit|Garbage|GarbagePublic|Public|DefaultExpiry|ConcurrentWriters)$")],
         "timeout": {"quick": 400, "thorough": 1800},
         "rule": ("generated: (exhaustive) for every length class {0,1,P-1,P,P+1,2P-1,2P,2P+1,kP-1,kP,kP+1 for k<=6} with <= 6 segments, ALL permutations "
                  "x ALL loss subsets, and all 6! orders x 2^6 loss subsets of two interleaved 3-segment messages (P = 1188, the real segment payload); "
